@@ -1,4 +1,5 @@
 import Fdo.Kex.Dh
+import Fdo.Kex.Spec
 /-
 Line protocol for the key-exchange model (prefix `kex.`).  The PRF, ECDH and RSA-OAEP are not
 computed here: the harness supplies their values (Go standard library) between two requests.
@@ -45,6 +46,7 @@ def outText {α : Type} (f : α → String) : Outcome α → String
 
 def handle (cmd : String) (args : List String) : Option String :=
   match cmd, args with
+  | "kex.specvalid", [suite, owner] => some (if specValidEc suite owner then "true" else "false")
   | "kex.kdf.inputs", [hb, ctx, bits] => do
     let hb ← hb.toNat?
     let ctx ← ofHex ctx
